@@ -154,6 +154,9 @@ impl Run<'_, '_> {
                     self.viol("refused-record-accepted-on-identical-retry", "an identical retry of a record refused with MaxRecords returned Ok although the store is unchanged and still full".to_string());
                 }
             }
+        } else if !new_key && quiet && self.held.contains_key(&key) && !ok {
+            // an update of a record the store holds is never a question of capacity
+            self.viol("held-record-update-refused", format!("the store ({pre_len}/{} records, nothing in flight) refused a new version of a record it holds (d={}, farthest held d={:?})", self.cap, short_hex(&self.d(&key)), farthest.as_ref().map(|(_, d)| short_hex(d))));
         } else if ok && !quiet && at_capacity && new_key {
             // eviction while something is in flight: not judged as a decision, but it must still be the index's farthest record
             let removed: Vec<Vec<u8>> = pre_keys.difference(&post_keys).cloned().collect();
@@ -554,6 +557,10 @@ impl Check for C10 {
                 57..=66 => {
                     // overwrite of a held key (the farthest one half of the time)
                     let target = if r.cx.rng.gen_bool(0.5) { r.farthest_held().map(|(k, _)| k) } else { r.held.keys().cloned().collect::<Vec<_>>().choose(&mut r.cx.rng).cloned() };
+                    // judged (never refused) when nothing is in flight
+                    if r.cx.rng.gen_bool(0.5) && !r.settle() {
+                        break;
+                    }
                     if let Some(k) = target {
                         r.put(k, "overwrite");
                         // sometimes immediately followed by a closer new key while the overwrite is in flight
